@@ -19,7 +19,7 @@ ASSUMPTIONS = ['property models are monotone in T on 250-500 K for the drawn com
                'mixed temperature is required to land in 200-600 K, otherwise the case is counted as rejected (outside model range)',
                'tolerances from Mixture.T_tol = 1e-6 K (DESIGN.md section 4)']
 REQUIRED_CELLS = {'quick': ['mix:recv=S', 'mix:recv=M', 'mix:multi-inlet', 'mix:Q!=0', 'mix:heat-object', 'mix:self',
-                            'set:H', 'set:h', 'set:S', 'set:Hnet', 'set:multi', 'sep:multi', 'sep:other-at-mixture-T', 'mix:empty-inlet-lowest-P'], 'thorough': []}
+                            'set:H', 'set:h', 'set:S', 'set:Hnet', 'set:multi', 'sep:multi', 'sep:other-at-mixture-T', 'mix:empty-inlet-lowest-P', 'mixvle:Q!=0', 'set:PR'], 'thorough': []}
 
 PKGS = ['A', 'B', 'C', 'D']
 T_TOL = 1e-6
@@ -41,7 +41,7 @@ def draw_inlet(ch, tag, pkgs, nonempty=True):
 
 
 def skey(spec):
-    return [spec['kind'], spec['pkg'], spec['phases'], [[1 if v else 0 for v in row] for row in spec['flows']]]
+    return [spec['kind'], spec['pkg'] if isinstance(spec['pkg'], str) else 'PR', spec['phases'], [[1 if v else 0 for v in row] for row in spec['flows']]]
 
 
 def tol_H(s, H):
@@ -175,19 +175,101 @@ def prop_separate(ch, ctx):
     ctx.nontriv(['sep', [skey(s) for s in specs], k, rkind])
 
 
+def prop_mix_vle(ch, ctx):
+    """mix_from(..., vle=True, Q=Q): the flash is specified by H = sum(H_in) + Q, so the balance must still close."""
+    pkg = ch.choice('pkg', ['D', 'C'])
+    n = ch.int('n', 2, 3)
+    specs = [vs.draw_spec(ch, f'in{i}', [pkg], kinds=('S',), phases=('l', 'g'), T=(300., 420.), P=(5e4, 5e5),
+                          lo_exp=-1, hi_exp=2, allow_empty=False) for i in range(n)]
+    for sp in specs:
+        if not any(sp['flows'][0]): sp['flows'][0][0] = 1.0
+    dT = ch.choice('Q.kind', [0.0, None, None])
+    if dT is None: dT = ch.float('Q.dT', -30., 30.)
+    nheat = ch.int('heat.objects', 0, 1)
+    th = chem.package(pkg)
+    tmo.settings.set_thermo(th)
+    inlets = [vs.build(sp) for sp in specs]
+    self_idx = ch.int('self', -1, n - 1)
+    recv = inlets[self_idx] if self_idx >= 0 else tmo.Stream(None, thermo=th)
+    Hs = [s.H for s in inlets]
+    Q = dT * sum(s.C for s in inlets)
+    parts = [Q / 2, Q / 2] if nheat else [Q]
+    want = sum(Hs) + Q
+    Pmin = min(s.P for s in inlets)
+    region = f'self={int(self_idx >= 0)},heat={nheat},Q={int(bool(Q))}'
+    ctx.cell('mixvle:Q!=0' if Q else 'mixvle:Q=0')
+    others = list(inlets) + [Heat(p) for p in parts[1:]]
+    try:
+        ctx.call('mix_vle', recv.mix_from, others, energy_balance=True, vle=True, Q=parts[0], region=region,
+                 allowed=(RuntimeError, FloatingPointError, ZeroDivisionError))
+    except (RuntimeError, FloatingPointError, ZeroDivisionError):
+        ctx.reject('flash did not converge (documented solver rejection)')
+    if not (200. < recv.T < 600.): ctx.reject('mixed temperature outside the model range')
+    got = recv.H
+    tol = 1e-5 * recv.F_mass + 100 * abs(recv.C) * T_TOL + 1e-9 * abs(want)
+    ctx.metric_max('mixvle:H_err/tol', abs(got - want) / tol)
+    if abs(got - want) > tol:
+        ctx.fail(f'mix_vle|{region}|H-mismatch', f'H_out={got!r} want sum(H_in)+Q={want!r} (Q={Q!r}) T={recv.T} phases={recv.phases}')
+    if recv.P != Pmin:
+        ctx.fail(f'mix_vle|{region}|P-not-min', f'P_out={recv.P!r} min P={Pmin!r}')
+    ctx.nontriv(['mixvle', [skey(s) for s in specs], self_idx, (Q > 0) - (Q < 0), nheat])
+
+
 SETTERS = ['H', 'h', 'S', 'Hnet']
+
+
+_pr_cache = {}
+
+
+def pr_package(pid):
+    """The same chemicals as package `pid` with a Peng-Robinson (equation-of-state) mixture instead of the ideal one."""
+    th = _pr_cache.get(pid)
+    if th is None:
+        from thermosteam.mixture import PRMixture
+        from vlib import runner
+        chems = tmo.Chemicals([chem.chemical(n) for n in chem.PACKAGES[pid]])
+        th = _pr_cache[pid] = tmo.Thermo(chems, mixture=PRMixture.from_chemicals(chems))
+        runner.register_chemicals(th.chemicals)
+    return th
 
 
 def prop_setter(ch, ctx):
     sp = draw_inlet(ch, 's', PKGS)
     X = ch.choice('setter', SETTERS)
+    mixture_kind = ch.choice('mixture', ['ideal', 'ideal', 'ideal', 'PR'])
+    if mixture_kind == 'PR':
+        # Equation-of-state package.  A cubic EOS has no gas root below the saturation temperature at elevated
+        # pressure (H(T) of "gas" water at 50 bar drops by 3 MJ/kmol at 440 K), so the pressure is kept <= 3 bar and
+        # the enthalpy is required to be increasing over the whole range (guard below), else the case is rejected.
+        sp = dict(sp, pkg=pr_package(sp['pkg']), P=min(sp['P'], 3e5))
+        ctx.cell('set:PR')
     # open interval: several heat-capacity correlations end exactly at 500 K / 250 K and jump by ~1e-6 relative there
     Tstar = ch.float('T*', 250.5, 499.5)
     T0 = ch.float('T0', 250.5, 499.5)
     s = vs.build(sp)
     tmo.settings.set_thermo(s.thermo)
+    # Liquid heat-capacity correlations diverge towards the critical point (hexane Tc = 507.6 K): a liquid row is only
+    # inside "the validity range of the property models" below ~0.9 Tc of its chemicals, so the temperatures of
+    # streams holding liquid are mapped linearly from (250.5, 499.5) into (250.5, min(499.5, 0.9 Tc_min)).
+    Tc_min = None
+    for p, row in zip(sp['phases'], sp['flows']):
+        if p in ('l', 'L'):
+            for c, v in zip(s.chemicals, row):
+                if v and c.Tc: Tc_min = c.Tc if Tc_min is None else min(Tc_min, c.Tc)
+    if Tc_min is not None:
+        hi = min(499.5, 0.9 * Tc_min)
+        Tstar = 250.5 + (Tstar - 250.5) * (hi - 250.5) / 249.0
+        T0 = 250.5 + (T0 - 250.5) * (hi - 250.5) / 249.0
     if not cn_positive(s): ctx.reject('non-monotone enthalpy model for this composition')
-    region = f'kind={vs.kind_tag(sp)},setter={X},phases={"".join(sorted(sp["phases"]))}'
+    if mixture_kind == 'PR':
+        Tkeep = s.T; prev = None
+        for Tg in np.linspace(250.5, 499.5, 84):
+            s.T = float(Tg); val = getattr(s, 'S' if X == 'S' else 'H')
+            if prev is not None and not (val > prev):
+                s.T = Tkeep; ctx.reject('equation-of-state enthalpy/entropy not increasing over 250-500 K (root switching)')
+            prev = val
+        s.T = Tkeep
+    region = f'kind={vs.kind_tag(sp)},setter={X},phases={"".join(sorted(sp["phases"]))},mix={mixture_kind}'
     ctx.cell('set:' + X)
     if sp['kind'] == 'M': ctx.cell('set:multi')
     s.T = Tstar
@@ -241,6 +323,7 @@ def prop_setter(ch, ctx):
 
 PROPS = {
     'mix': (prop_mix, 1200, 60000),
+    'mix_vle': (prop_mix_vle, 320, 12000),
     'separate': (prop_separate, 500, 25000),
     'setter': (prop_setter, 1500, 60000),
 }
